@@ -23,6 +23,15 @@
   within rounding but not bit-identical to the arrival-order sum).
   Answers that came out of Go maps / unstable sorts are compared as sets (sorted by
   id), never by position; NaNs are canonicalised (Comet.PostFloat).
+
+  NaN and order.  No judgement depends on where a sort puts a NaN, nor on where it puts
+  the other entries once a NaN is among the sorted scores (the comparison is then not a
+  strict weak order and any comparison sort may answer differently): aggregation and
+  merge order is judged only when no returned score is NaN; `ranks` must then only be a
+  bijection onto 0 … n−1 and `fuse rrf` be explained by SOME such bijection per NaN
+  modality (`checkRanksW`, `verifyRRFW` with `strict = false`).  Without NaN everything
+  is judged at full strength.  Limiting / autocut are prefixes of the input as given
+  (no sort involved).
 -/
 import Comet.Driver.Proto
 import Comet.Agg
@@ -280,17 +289,15 @@ def keyUnion (ms : List (List Id)) : List Id :=
   (ms.foldl (· ++ ·) []).mergeSort (fun a b => decide (a ≤ b)) |>.eraseDups
 
 /-- candidate 0-based ranks of every entry of a score map in a best-first ordering:
-    a NaN entry may sit anywhere; another entry between the number of strictly better
-    non-NaN entries and the number of not-worse ones (+ the NaN entries, which may
-    sit anywhere). -/
+    between the number of strictly better entries and the number of not-worse ones.
+    When the map contains a NaN no placement is demanded (see `modalityStrict`). -/
 def rankCands (asc : Bool) (m : List (Id × UInt64)) : List (Id × Nat × Nat) :=
-  let nn := m.filter fun e => !isNaN64 e.2
-  let k := m.length - nn.length
+  -- a NaN among the scores: "best-first" is undefined, every entry may sit anywhere
+  if m.any (isNaN64 ·.2) then m.map fun e => (e.1, 0, m.length - 1) else
   m.map fun e =>
-    if isNaN64 e.2 then (e.1, 0, m.length - 1) else
-    let better := (nn.filter fun e' => if asc then lt64 e'.2 e.2 else lt64 e.2 e'.2).length
-    let notWorse := (nn.filter fun e' => if asc then le64 e'.2 e.2 else le64 e.2 e'.2).length
-    (e.1, better, notWorse - 1 + k)
+    let better := (m.filter fun e' => if asc then lt64 e'.2 e.2 else lt64 e.2 e'.2).length
+    let notWorse := (m.filter fun e' => if asc then le64 e'.2 e.2 else le64 e.2 e'.2).length
+    (e.1, better, notWorse - 1)
 
 structure RRFProblem where
   K : UInt64
@@ -347,8 +354,15 @@ def orderBy (m : List (Id × UInt64)) (ranks : List (Id × Nat)) : List (Id × U
 
 inductive RRFResult | found | notFound | outOfFuel
 
+/-- "Best-first" is demanded of a modality's ranking only when it is defined: no NaN
+    among its scores.  With a NaN the comparison is not a strict weak order on them and a
+    comparison sort may place every entry anywhere; the property then only promises a rank
+    map (a bijection onto 0 … n−1) without panic. -/
+def modalityStrict (m : List (Id × UInt64)) : Bool := !m.any (isNaN64 ·.2)
+
 /-- untrusted search for rankings explaining `out`; every success is certified by
-    `verifyRRF` (soundness: `Comet.verifyRRF_sound`) -/
+    `verifyRRFW` (soundness: `Comet.verifyRRFW_sound`; for NaN-free modalities this is
+    `RRFSpec`, `Comet.rrfSpecW_true`) -/
 def searchRRF (K : UInt64) (v t out : List (Id × UInt64)) : RRFResult :=
   let p : RRFProblem := { K := K, out := out, cv := rankCands true v, ct := rankCands false t }
   let ids := keyUnion [v.map (·.1), t.map (·.1)]
@@ -358,7 +372,7 @@ def searchRRF (K : UInt64) (v t out : List (Id × UInt64)) : RRFResult :=
   let leaf (acc : List (Id × Option Nat × Option Nat)) : Bool :=
     let σv := orderBy v (acc.filterMap fun (id, a, _) => a.map (id, ·))
     let σt := orderBy t (acc.filterMap fun (id, _, b) => b.map (id, ·))
-    verifyRRF dops K v t out σv σt
+    verifyRRFW dops K v t out σv σt (modalityStrict v) (modalityStrict t)
   let (fuel, found) := dfs leaf 300000 cands [] [] []
   if found then .found else if fuel == 0 then .outOfFuel else .notFound
 
@@ -391,8 +405,10 @@ def opFuse (kind wv wt K : String) (pre post : List String) : String :=
         else match searchRRF K v t out with
           | .found =>
             let tie (m : List (Id × UInt64)) := decide (((m.map (·.2)).eraseDups).length < m.length)
-            flags ["ok", shape, flag "ranktie" (tie v || tie t)]
-          | .notFound => s!"SPECFAIL fuse rrf: no best-first ranking explains the scores out={showEnts out}"
+            flags ["ok", shape, flag "ranktie" (tie v || tie t), flag "nanrank" (!(modalityStrict v && modalityStrict t))]
+          | .notFound =>
+            let what := if modalityStrict v && modalityStrict t then "best-first" else "bijective (NaN modality) / best-first"
+            s!"SPECFAIL fuse rrf: no {what} ranking explains the scores out={showEnts out}"
           | .outOfFuel => "UNSUPPORTED fuse rrf: witness search ran out of fuel"
       else
         let model? : Option (List (Id × UInt64)) :=
@@ -429,11 +445,13 @@ def opRanks (dir : String) (pre post : List String) : String :=
       if !nodupB (m.map (·.1)) then "BADOP ranks: duplicate keys" else
       if !nodupB (ranks.map (·.1)) then "SPECFAIL ranks duplicate id" else
       let asc := dir == "asc"
-      if checkRanks dops asc m ranks then
+      let strict := modalityStrict m
+      if checkRanksW dops asc strict m ranks then
         flags ["ok", flag "ranktie" (decide (((m.map (·.2)).eraseDups).length < m.length)),
                flag "special" (m.any fun e => isNaN64 e.2 || (f64 e.2).isInf),
-               flag "many" (decide (m.length ≥ 2))]
-      else s!"SPECFAIL ranks not a 0-based best-first ranking n={m.length} ranks={ranks.take 6}"
+               flag "many" (decide (m.length ≥ 2)), flag "nanrank" (!strict)]
+      else if strict then s!"SPECFAIL ranks not a 0-based best-first ranking n={m.length} ranks={ranks.take 6}"
+      else s!"SPECFAIL ranks not a bijection onto 0..n-1 (NaN among the scores: no placement demanded) n={m.length} ranks={ranks.take 6}"
     | _, _ => "BADOP ranks entries"
   | _ => "BADOP ranks shape"
 
